@@ -422,6 +422,202 @@ theorem h_h_eq (a : Nat) : h_h (R := R) a = Op.h a := by
 
 end hgate
 
+/-! ### the public constructors (`operator/single/{pauli,rotate,swap}.rs`, `operator/mod.rs`) -/
+section ctors
+variable [Add R] [Sub R] [Mul R] [Div R] [Neg R] [Zero R] [One R] [Consts R] [Trig R] [Rs.AngleConsts R]
+
+theorem pauli_x_eq (a : Nat) : pauli_x (R := R) a = SingleOp.ofAtom (.x a) := rfl
+theorem pauli_y_eq (a : Nat) : pauli_y (R := R) a = SingleOp.ofAtom (.y a (yIPow a)) := by
+  simp [pauli_y, single_from, y_new_eq, SingleOp.ofAtom]
+theorem pauli_z_eq (a : Nat) : pauli_z (R := R) a = SingleOp.ofAtom (.z a) := rfl
+theorem pauli_s_eq (a : Nat) : pauli_s (R := R) a = SingleOp.ofAtom (.s a false) := rfl
+theorem pauli_t_eq (a : Nat) : pauli_t (R := R) a = SingleOp.ofAtom (.t a false) := rfl
+
+theorem checked_eq (g : Atom R) :
+    (if Atom.isValid g then some (single_from g) else none) = SingleOp.checked g := by
+  unfold SingleOp.checked single_from SingleOp.ofAtom
+  cases Atom.isValid g <;> rfl
+
+theorem rotate_rx_eq (a : Nat) (θ : R) : rotate_rx a θ = SingleOp.checked (.rx a (halfPhaseDiv θ)) := checked_eq _
+theorem rotate_ry_eq (a : Nat) (θ : R) : rotate_ry a θ = SingleOp.checked (.ry a (halfPhaseDiv θ)) := checked_eq _
+theorem rotate_rz_eq (a : Nat) (θ : R) : rotate_rz a θ = SingleOp.checked (.rz a (halfPhaseDiv θ)) := checked_eq _
+theorem rotate_rxx_eq (a : Nat) (θ : R) : rotate_rxx a θ = SingleOp.checked (.rxx a (halfPhaseMul θ)) := checked_eq _
+theorem rotate_ryy_eq (a : Nat) (θ : R) : rotate_ryy a θ = SingleOp.checked (.ryy a (halfPhaseDiv θ)) := checked_eq _
+theorem rotate_rzz_eq (a : Nat) (θ : R) : rotate_rzz a θ = SingleOp.checked (.rzz a (halfPhaseDiv θ)) := checked_eq _
+theorem swapmod_swap_eq (a : Nat) : swapmod_swap (R := R) a = SingleOp.checked (.swap a) := checked_eq _
+theorem swapmod_sqrt_swap_eq (a : Nat) : swapmod_sqrt_swap (R := R) a = SingleOp.checked (.sqrtSwap a false) := checked_eq _
+theorem swapmod_i_swap_eq (a : Nat) : swapmod_i_swap (R := R) a = SingleOp.checked (.iSwap a false) := checked_eq _
+theorem swapmod_sqrt_i_swap_eq (a : Nat) : swapmod_sqrt_i_swap (R := R) a = SingleOp.checked (.sqrtISwap a false) := checked_eq _
+
+theorem bind_some_map {α β : Type} (o : Option α) (f : α → β) : (o.bind fun u => some (f u)) = o.map f := by
+  cases o <;> rfl
+
+theorem op_id_eq : op_id (R := R) = Op.id := rfl
+theorem op_x_eq (a : Nat) : op_x (R := R) a = Op.x a := rfl
+theorem op_y_eq (a : Nat) : op_y (R := R) a = Op.y a := by simp [op_y, Op.y, pauli_y_eq]
+theorem op_z_eq (a : Nat) : op_z (R := R) a = Op.z a := rfl
+theorem op_s_eq (a : Nat) : op_s (R := R) a = Op.s a := rfl
+theorem op_t_eq (a : Nat) : op_t (R := R) a = Op.t a := rfl
+theorem op_rx_eq (θ : R) (a : Nat) : op_rx θ a = Op.rx (halfPhaseDiv θ) a := by
+  simp [op_rx, Op.rx, Op.ofChecked, rotate_rx_eq, bind_some_map]
+theorem op_ry_eq (θ : R) (a : Nat) : op_ry θ a = Op.ry (halfPhaseDiv θ) a := by
+  simp [op_ry, Op.ry, Op.ofChecked, rotate_ry_eq, bind_some_map]
+theorem op_rz_eq (θ : R) (a : Nat) : op_rz θ a = Op.rz (halfPhaseDiv θ) a := by
+  simp [op_rz, Op.rz, Op.ofChecked, rotate_rz_eq, bind_some_map]
+theorem op_rxx_eq (θ : R) (a : Nat) : op_rxx θ a = Op.rxx (halfPhaseMul θ) a := by
+  simp [op_rxx, Op.rxx, Op.ofChecked, rotate_rxx_eq, bind_some_map]
+theorem op_ryy_eq (θ : R) (a : Nat) : op_ryy θ a = Op.ryy (halfPhaseDiv θ) a := by
+  simp [op_ryy, Op.ryy, Op.ofChecked, rotate_ryy_eq, bind_some_map]
+theorem op_rzz_eq (θ : R) (a : Nat) : op_rzz θ a = Op.rzz (halfPhaseDiv θ) a := by
+  simp [op_rzz, Op.rzz, Op.ofChecked, rotate_rzz_eq, bind_some_map]
+theorem op_swap_eq (a : Nat) : op_swap (R := R) a = Op.swap a := by
+  simp [op_swap, Op.swap, Op.ofChecked, swapmod_swap_eq, bind_some_map]
+theorem op_sqrt_swap_eq (a : Nat) : op_sqrt_swap (R := R) a = Op.sqrtSwap a := by
+  simp [op_sqrt_swap, Op.sqrtSwap, Op.ofChecked, swapmod_sqrt_swap_eq, bind_some_map]
+theorem op_i_swap_eq (a : Nat) : op_i_swap (R := R) a = Op.iSwap a := by
+  simp [op_i_swap, Op.iSwap, Op.ofChecked, swapmod_i_swap_eq, bind_some_map]
+theorem op_sqrt_i_swap_eq (a : Nat) : op_sqrt_i_swap (R := R) a = Op.sqrtISwap a := by
+  simp [op_sqrt_i_swap, Op.sqrtISwap, Op.ofChecked, swapmod_sqrt_i_swap_eq, bind_some_map]
+theorem op_h_eq (a : Nat) : op_h (R := R) a = Op.h a := by
+  simp [op_h, h_h_eq]
+theorem op_u1_eq (lam : R) (a : Nat) : op_u1 lam a = Op.u1 (halfPhaseDiv lam) a := by
+  simp [op_u1, Op.u1, op_rz_eq]
+theorem op_u3_eq (the phi lam : R) (a : Nat) :
+    op_u3 the phi lam a = Op.u3 (halfPhaseDiv the) (halfPhaseDiv phi) (halfPhaseDiv lam) a := by
+  simp only [op_u3, Op.u3, op_rz_eq, op_ry_eq]
+  cases Op.rz (halfPhaseDiv lam) a <;> cases Op.ry (halfPhaseDiv the) a <;> cases Op.rz (halfPhaseDiv phi) a <;> rfl
+theorem op_u2_eq (phi lam : R) (a : Nat) :
+    op_u2 phi lam a = Op.u2 (halfPhaseDiv Rs.AngleConsts.fracPi2) (halfPhaseDiv phi) (halfPhaseDiv lam) a := by
+  simp only [op_u2, Op.u2, Op.u3, op_rz_eq, op_ry_eq]
+  cases Op.rz (halfPhaseDiv lam) a <;> cases Op.ry (halfPhaseDiv (Rs.AngleConsts.fracPi2 : R)) a <;> cases Op.rz (halfPhaseDiv phi) a <;> rfl
+
+end ctors
+
+/-! ### `sample_all` (`register/quant.rs`) -/
+section sample
+open Qvnt.QReg (HasRound)
+variable [Add R] [Sub R] [Mul R] [Div R] [Neg R] [Zero R] [One R] [Consts R]
+  [LE R] [DecidableLE R] [LT R] [DecidableLT R] [HasSqrt R] [RegConsts R] [HasRound R]
+
+/-- the surplus walk: one more unit of fuel than the model's (the translated loop tests its fuel first) -/
+theorem surplus_loop_eq (r : QRegG R) (fuel idx s : Nat) (n : List Nat) (hq : r.q_mask < n.length) :
+    (quant_sample_all_loop1 r (fuel + 1) (idx, n, s)).map (fun st => st.2.1) =
+      QReg.removeSurplus r.q_mask fuel idx s n := by
+  induction fuel generalizing idx s n with
+  | zero =>
+    cases s with
+    | zero => simp [quant_sample_all_loop1, QReg.removeSurplus]
+    | succ s' =>
+      unfold quant_sample_all_loop1 QReg.removeSurplus
+      by_cases h0 : n.getD (idx &&& r.q_mask) 0 = 0 <;> simp [h0, quant_sample_all_loop1]
+  | succ f ih =>
+    cases s with
+    | zero => simp [quant_sample_all_loop1, QReg.removeSurplus]
+    | succ s' =>
+      have hc : idx &&& r.q_mask < n.length := lt_of_le_of_lt Nat.and_le_right hq
+      unfold quant_sample_all_loop1 QReg.removeSurplus
+      have hget : n[idx &&& r.q_mask]? = some (n.getD (idx &&& r.q_mask) 0) := by
+        simp [List.getD_eq_getElem?_getD, List.getElem?_eq_getElem hc]
+      simp only [Nat.add_eq_zero_iff, one_ne_zero, and_false, beq_iff_eq, ↓reduceIte, hget]
+      cases hv : n.getD (idx &&& r.q_mask) 0 with
+      | zero => simp [ih (idx + 1) (s' + 1) n hq]
+      | succ v =>
+        have := ih (idx + 1) s' (n.set (idx &&& r.q_mask) v) (by simpa using hq)
+        simp [this]
+
+theorem updateSelected_eq_go (each extra : Nat) (n : List Nat) (p : List R) (k : Nat) :
+    Rs.updateSelectedAux (fun x => decide (x > 0)) (fun idx x => if idx < extra then x + each + 1 else x + each) n p k =
+      QReg.addDeficit.go each extra n (p.map fun x => decide (0 < x)) k := by
+  induction n generalizing p k with
+  | nil => cases p <;> simp [Rs.updateSelectedAux, QReg.addDeficit.go]
+  | cons x xs ih =>
+    cases p with
+    | nil => simp [Rs.updateSelectedAux, QReg.addDeficit.go]
+    | cons y ys =>
+      by_cases hy : (0 : R) < y
+      · simp only [Rs.updateSelectedAux, GT.gt, hy, decide_true, ↓reduceIte, List.map_cons, QReg.addDeficit.go, ih]
+        by_cases hk : k < extra <;> simp [hk, Nat.add_assoc]
+      · simp [Rs.updateSelectedAux, GT.gt, hy, QReg.addDeficit.go, ih]
+
+theorem rsSum_nat (l : List Nat) : Rs.sum l = l.sum := by
+  unfold Rs.sum
+  rw [List.sum_eq_foldl]
+
+/-- stage 1: the rounded Gaussian proposal, when there is a draw for every cell -/
+theorem proposal_eq (p g : List R) (count : Nat) (hg : p.length ≤ g.length) :
+    (let c : R := HasRound.ofNat count
+     let c_sqrt := HasSqrt.sqrt c
+     let n := List.map (fun a1 : R × R => HasSqrt.sqrt a1.1 * a1.2) (List.zip p g)
+     let n_sum := Rs.sum n
+     List.map (fun idx => Int.toNat (max (HasRound.roundInt ((c * p.getD idx 0) + (c_sqrt * (n.getD idx 0 - (n_sum * p.getD idx 0))))) (0 : Int)))
+       (Rs.range 0 p.length)) = QReg.sampleProposal p count g := by
+  unfold QReg.sampleProposal Rs.sum Rs.range
+  apply List.ext_getElem
+  · simp; omega
+  · intro i h1 h2
+    have hi : i < p.length := by simpa using h1
+    have hig : i < g.length := by omega
+    simp [List.getD_eq_getElem?_getD, hi, hig]
+
+/-- `sample_all` with the normal draws as an input list (one draw per cell at least), for every register whose
+mask and buffer fit its size: the translated function, given one more unit of fuel than the model's bound, is
+the model's `sampleAll` -/
+theorem quant_sample_all_eq (r : QReg R) (count : Nat) (g : List R) (hq : r.qNum < 64)
+    (hs : 2 ^ r.qNum ≤ r.psi.size) (hm : r.qMask < 2 ^ r.qNum) (hg : 2 ^ r.qNum ≤ g.length) :
+    quant_sample_all
+      (((QReg.sampleProposal r.getProbabilities count g).sum - count) *
+        ((QReg.sampleProposal r.getProbabilities count g).length + 1) +
+        (QReg.sampleProposal r.getProbabilities count g).length + 1 + 1) (ofModel r) count g =
+      r.sampleAll count g := by
+  have hp := quant_get_probabilities_eq r hq hs
+  have hpl : r.getProbabilities.length = 2 ^ r.qNum := by simp [QReg.getProbabilities]
+  have hprop := proposal_eq r.getProbabilities g count (by omega)
+  simp only at hprop
+  unfold quant_sample_all QReg.sampleAll QReg.sampleFix
+  simp only [hp, hprop]
+  generalize hn0 : QReg.sampleProposal r.getProbabilities count g = n0
+  have hn0l : n0.length = 2 ^ r.qNum := by
+    rw [← hn0]; unfold QReg.sampleProposal; simp [hpl]; omega
+  simp only [rsSum_nat]
+  by_cases hlt : n0.sum < count
+  · have h1 : ((Int.ofNat n0.sum - Int.ofNat count) < (0 : Int)) := by
+      simp only [Int.ofNat_eq_natCast]; omega
+    have hab : Int.natAbs (Int.ofNat n0.sum - Int.ofNat count) = count - n0.sum := by
+      simp only [Int.ofNat_eq_natCast]; omega
+    simp only [h1, decide_true, ↓reduceIte, hlt, hab, QReg.addDeficit, Rs.updateSelected]
+    have hsup : (List.filter (fun a4 : R => decide (a4 > 0)) r.getProbabilities).length =
+        (List.filter id (List.map (fun x => decide (0 < x)) r.getProbabilities)).length := by
+      rw [List.filter_map]; simp [Function.comp_def, GT.gt]
+    rw [hsup]
+    congr 1
+    rw [← updateSelected_eq_go]
+    congr 1
+    funext idx x
+    by_cases hk : idx < (count - n0.sum) % max (List.filter id (List.map (fun x => decide (0 < x)) r.getProbabilities)).length 1
+    · simp [hk]
+    · simp [hk]
+  · by_cases hgt : n0.sum > count
+    · have h1 : ¬ ((Int.ofNat n0.sum - Int.ofNat count) < (0 : Int)) := by
+        simp only [Int.ofNat_eq_natCast]; omega
+      have h2 : ((Int.ofNat n0.sum - Int.ofNat count) > (0 : Int)) := by
+        simp only [Int.ofNat_eq_natCast]; omega
+      have hcast : Int.toNat (Int.ofNat n0.sum - Int.ofNat count) = n0.sum - count := by
+        simp only [Int.ofNat_eq_natCast]; omega
+      simp only [h1, decide_false, Bool.false_eq_true, ↓reduceIte, h2, decide_true, hlt, hgt, hcast]
+      have := surplus_loop_eq (ofModel r) ((n0.sum - count) * (n0.length + 1) + n0.length + 1) 0 (n0.sum - count) n0
+        (by simp [ofModel, hn0l]; exact hm)
+      simp only [ofModel] at this ⊢
+      rw [← this]
+      cases quant_sample_all_loop1 (R := R) ⟨r.psi.toList, r.qNum, r.qMask⟩
+        ((n0.sum - count) * (n0.length + 1) + n0.length + 1 + 1) (0, n0, n0.sum - count) <;> simp
+    · have h1 : ¬ ((Int.ofNat n0.sum - Int.ofNat count) < (0 : Int)) := by
+        simp only [Int.ofNat_eq_natCast]; omega
+      have h2 : ¬ ((Int.ofNat n0.sum - Int.ofNat count) > (0 : Int)) := by
+        simp only [Int.ofNat_eq_natCast]; omega
+      simp [h1, h2, hlt, hgt]
+
+end sample
+
 /-! ### virtual registers (`register/virtl.rs`) -/
 
 def vregOfModel (v : VReg) : VRegG := ⟨v.bits⟩
